@@ -23,5 +23,5 @@ fi
 for P in "$@"; do
   out="$("$HERE/bin/h5sa" -prop "$P" -repo "$D" -verif "$HERE" -no-evidence 2>&1 | grep -v '^WARNING')"; rc=$?
   echo "--- $P: $(echo "$out" | grep -c '^FINDING') finding(s) $(echo "$out" | grep -c 'CHECKER-ERROR') error(s)"
-  echo "$out" | grep "^FINDING\|CHECKER-ERROR" | cut -c1-260 | head -6
+  echo "$out" | grep "^FINDING\|CHECKER-ERROR" | cut -c1-${EVCUT:-260} | head -${EVHEAD:-6}
 done
